@@ -152,7 +152,7 @@ func ruleXZReaderChecks(c *Ctx, r *Report, prefix string) {
 				if !ok || fieldOfAddr(fa) == nil || fieldOfAddr(fa).Name() != "indexSize" {
 					continue
 				}
-				if t := staticTerm(c, st.Val, uint32LE); t == "(shl (+ (call xz.uint32LE (slice $data 4:)) 1) 2)" {
+				if t := staticTerm(c, st.Val, uint32LE); normTerm(t) == normTerm("(shl (+ (call xz.uint32LE (slice $data 4:)) 1) 2)") {
 					okBS = true
 				}
 			}
